@@ -247,7 +247,10 @@ def make_behaviour(spec, rng):
     nk = pick(spec.get('kids'), 0)
     for i in range(nk or 0):
         kids.append(make_behaviour(spec.get('kid') or {}, rng))
-    return Behaviour(ignore=ign,
+    late = []
+    for i in range(pick(spec.get('late_kids'), 0) or 0):
+        late.append(make_behaviour(spec.get('kid') or {}, rng))
+    return Behaviour(ignore=ign, late_children=late,
                      react_delay=float(pick(spec.get('delay'), 0.0)),
                      react_exit=pick(spec.get('exit')),
                      lifetime=life, self_status=st, children=kids,
